@@ -251,4 +251,7 @@ def obligations():  # noqa: F811
     from tx.p_c08 import content
     from tx.p_c14 import rule_kinds
     return (_c01_base() + literal_values() + temp_sequences() + condition_coercion() + int_helper() + helpers_in_expressions()
-            + share("literal-text/", content()) + share("kind/", rule_kinds()) + share("operands/", __import__("tx.p_c14", fromlist=["x"]).data_filter_leaves_operands_alone()))
+            + share("literal-text/", content()) + share("kind/", rule_kinds()) + share("operands/", __import__("tx.p_c14", fromlist=["x"]).data_filter_leaves_operands_alone())
+            # a comparison has the value of the relation the source spells (shared with C02); the value of `target = F(..)` reaches the target
+            # for every kind of target (shared with C05)
+            + share("relations/", __import__("tx.p_c02", fromlist=["x"]).relation_spellings()) + share("delivery/", __import__("tx.p_c05", fromlist=["x"]).direct_delivery()))
